@@ -298,3 +298,132 @@ def notification_pass(ctx, tag='C05', trace=None, only=None, judge='mirror'):
                     break
     finally:
         shutil.rmtree(tmp, ignore_errors=True)
+
+
+def deletion_pass(ctx, tag='C07'):
+    """C07 across resources: a holder loaded from one resource refers (through a reference without opposite) to an
+    object of another one; the proxy is resolved — by reading something through it, by force_resolve(), or not at all
+    before the target is reached by navigating its own resource — and the target is deleted: no holder may be left with
+    a value standing for it.  (Unique many-valued holders are C14's recorded finding F-C14-1 and left out.)"""
+    from pyecore.ecore import EProxy
+    n = 60 if ctx.quick() else 1000
+    tmp = tempfile.mkdtemp(prefix='verif_cw_')
+    try:
+        for h in range(n):
+            rng = common.sub_rng(ctx.seed, tag, 'cross-delete', h)
+            fmt = 'xmi' if h % 3 != 2 else 'json'
+            try:
+                if h % 4 == 0:
+                    sp, built, rset2, res, ncross = _load(rng, h, tmp, fmt, False)
+                else:
+                    res = [_small_world(rng, h, tmp, fmt)]
+            except Exception as e:
+                ctx.count('cross-delete/setup-raised/' + type(e).__name__)
+                continue
+            first = res[0]
+            objs = c14.preorder(first.contents)
+            holders = [(o, f, v) for o in objs for f in _refs(o)
+                       if f.eOpposite is None and not f.containment and not f.derived and not (f.many and f.unique)
+                       for v in _vals_raw(o, f) if isinstance(v, EProxy) and not v.resolved]
+            if not holders:
+                ctx.count('cross-delete/no-unresolved-holder')
+                continue
+            o, f, p = rng.choice(holders)
+            how = rng.choice(['read-through-proxy', 'read-through-proxy', 'force_resolve', 'eClass-through-proxy'])
+            try:
+                if how == 'force_resolve':
+                    p.force_resolve()
+                elif how == 'eClass-through-proxy':
+                    _ = p.eClass
+                else:
+                    _ = p.eContainer()
+                target = p._wrapped
+            except Exception as e:
+                ctx.count('cross-delete/resolve-raised/' + type(e).__name__)
+                continue
+            if target is None or not hasattr(target, 'delete'):
+                continue
+            ctx.evaluations += 1
+            ctx.count('cross-delete/' + how)
+            ctx.nontriv(('cross-delete', h))
+            recursive = rng.random() < .7
+            doomed = [target] + (list(target.eAllContents()) if recursive else [])
+            try:
+                target.delete(recursive=recursive)
+            except Exception as e:
+                ctx.violate({'clause': 'delete-raised', 'trigger': 'none', 'cross': True},
+                            f'delete-raised: delete() of an object held from another resource ({fmt}, proxy resolved by {how}) '
+                            f'raised {type(e).__name__}: {e}', {'cross_delete': True, 'case': h, 'format': fmt, 'how': how})
+                break
+            left = None
+            for x in objs:
+                for g in _refs(x):
+                    if g.derived or (g.many and g.unique):
+                        continue
+                    for v in _vals_raw(x, g):
+                        t = v._wrapped if isinstance(v, EProxy) and v.resolved else v
+                        if any(t is d for d in doomed):
+                            left = f'{x.eClass.name}.{g.name} (many={g.many}) still holds a value standing for a deleted object'
+            if left:
+                ctx.violate({'clause': 'dangling', 'trigger': 'none', 'cross': True},
+                            f'dangling: after delete() of an object held from another resource ({fmt}, proxy resolved by {how}): {left}',
+                            {'cross_delete': True, 'case': h, 'format': fmt, 'how': how})
+                break
+    finally:
+        shutil.rmtree(tmp, ignore_errors=True)
+
+
+def _small_world(rng, h, tmp, fmt):
+    """two files: holders in the first refer, through references without opposite (single-valued, list-like), to objects
+    at several depths of the second; the first is loaded in a fresh resource set"""
+    from pyecore import ecore as E
+    from pyecore.resources import ResourceSet, URI
+    from pyecore.resources.json import JsonResource
+    pk = E.EPackage('cd', f'http://verif/cd{h}', 'cd')
+    N = E.EClass('N')
+    pk.eClassifiers.append(N)
+    N.eStructuralFeatures.extend([E.EAttribute('name', E.EString), E.EReference('one', N), E.EReference('other', N),
+                                  E.EReference('lst', N, upper=-1, unique=False),
+                                  E.EReference('kids', N, upper=-1, containment=True)])
+    d = os.path.join(tmp, f'sw{h}', rng.choice(['', 'sub', 'my dir']))
+    os.makedirs(d, exist_ok=True)
+
+    def rs():
+        r = ResourceSet()
+        r.resource_factory['json'] = lambda uri: JsonResource(uri)
+        r.metamodel_registry[pk.nsURI] = pk
+        return r
+    w = rs()
+    broot = N(name='b')
+    bs = [broot]
+    for i in range(rng.randint(2, 5)):
+        k = N(name=f'b{i}')
+        rng.choice(bs).kids.append(k)
+        bs.append(k)
+    aroot = N(name='a')
+    holders = [aroot]
+    for i in range(rng.randint(1, 3)):
+        k = N(name=f'a{i}')
+        aroot.kids.append(k)
+        holders.append(k)
+    for x in holders:
+        if rng.random() < .7:
+            x.one = rng.choice(bs)
+        if rng.random() < .4:
+            x.other = rng.choice(bs + holders)
+        picks = rng.sample(bs, rng.randint(0, min(3, len(bs))))
+        x.lst.extend(picks)
+    rb = w.create_resource(URI(os.path.join(d, f'b.{fmt}')))
+    rb.append(broot)
+    ra = w.create_resource(URI(os.path.join(tmp, f'sw{h}', f'a.{fmt}')))
+    ra.append(aroot)
+    rb.save(); ra.save()
+    return rs().get_resource(URI(os.path.join(tmp, f'sw{h}', f'a.{fmt}')))
+
+
+def _vals_raw(o, f):
+    """the values as stored (proxies as proxies), without comparing or following them"""
+    v = o.eGet(f)
+    if f.many:
+        return list(getattr(v, 'items', v)) if not isinstance(v, list) else list(v)
+    return [v] if v is not None else []
